@@ -315,6 +315,17 @@ def model_edits(model_bytes):
                     else:
                         t.tag = 1
                     yield f'node[{i}].p_edge[{j}].cons[{c}].opt[{o}]=two', m
+                    # ... the second alternative being the tag numbered 0 / the empty value
+                    for extra in ('tag0',):
+                        m = fresh()
+                        t = m.nodes[i].p_edges[j].cons_sets[c].options[o]
+                        if extra == 'tag0' and t.tag is None:
+                            t.tag = 0
+                        elif extra == 'empty-value' and t.value is None:
+                            t.value = b''
+                        else:
+                            continue
+                        yield f'node[{i}].p_edge[{j}].cons[{c}].opt[{o}]=two:{extra}', m
                     if op.fn is not None:
                         m = fresh()
                         m.nodes[i].p_edges[j].cons_sets[c].options[o].fn.fn_id = ''
